@@ -4,6 +4,8 @@ A recipe is a list of rows; row i is ('sym', name, sort) | ('int', v) | ('bv', v
 | (op, [indexes of earlier rows]).  `build(env, recipe)` creates the nodes in any Environment, so
 the same formula can be built in the environment under test and in its untouched twin.
 """
+import re
+
 
 SORTS = ("bool", "int", "bv", "real", "str")
 
@@ -178,14 +180,32 @@ def canon_value(v, rename=None):
     return "%s" % (v,)
 
 
-def rename_fresh(text):
-    """Fresh-symbol names (FV%d, __x%d, .def_%d, ack%d) replaced by their order of first occurrence."""
-    import re
-    seen = {}
+FRESH_RE = re.compile(r"(?<![A-Za-z0-9_])(?:__x|FV|\.def_|ack)\d+")
+_FRESH_FULL = re.compile(r"^(?:__x|FV|\.def_|ack)\d+$")
 
-    def sub(m):
-        return seen.setdefault(m.group(0), "<fresh%d>" % len(seen))
-    return re.sub(r"(?<![A-Za-z0-9_])(?:__x|FV|\.def_|ack)\d+", sub, text)
+
+def fresh_token(name):
+    """Every fresh-symbol name (FV%d, __x%d, .def_%d, ack%d) becomes ONE token.  Used as the
+    `rename` of canon(): it is applied to the leaves BEFORE commutative arguments are sorted, so
+    two results that are equal up to a consistent renaming of fresh names and AC order always get
+    the same key (by induction on the term).  The abstraction may identify results that wire
+    their fresh names differently; exact names are the business of the cnf/prenex models."""
+    return "<fresh>" if _FRESH_FULL.match(name) else name
+
+
+def mask_fresh(text):
+    """The same abstraction on a plain text (printed formulas, command arguments)."""
+    return FRESH_RE.sub("<fresh>", text)
+
+
+def canon_key(v):
+    """THE comparison key of all twin / fresh-environment comparisons (C14, C15, C20)."""
+    return mask_fresh(canon_value(v, fresh_token))
+
+
+def rename_fresh(text):
+    """Kept for callers that only have a text: masks fresh names (no numbering by occurrence)."""
+    return mask_fresh(text)
 
 
 def restrict(rows, idx):
